@@ -13,8 +13,11 @@ NOT_EXHIBITABLE = ['loadFlag.stale', 'dtorThrow', 'crash']
 
 def run(res, tier):
     res.assumptions += [
-        'each input is abstracted by its proven hand-off interface (C01 unique / C06 shared): its combinator callback is entered '
-        'exactly once, by the registering thread (input already complete) or by the completing thread',
+        'unique inputs: NOT an assumption any more - the composition of the When model with n instances of the C01 hand-off model '
+        '(Model/WhenCompose.lean) simulates the When model (input_interface_sound: the callback of input i is entered exactly once, '
+        'inline by the registering thread only if the word already held the result, else by the completing thread after the '
+        'callback was installed) and the property theorems are lifted to it; shared inputs are still abstracted by their proven '
+        'C06 interface (callback entered exactly once) plus the callback-node theorem (every shared input has its own node)',
         'every input eventually completes (a dropped Promise completes its Future with StopError), so "quiescent" means finished',
         'the model allows stale pre-check loads of the done flag; the FIBER backend never produces them',
         'values are abstract (identified by the index of the input they came from); moves/copies of payloads are checked by the '
